@@ -276,6 +276,7 @@ CHECKS = {
         "exploration",
         "mutation explorer (deviation-bounded) over a finite seed corpus + documented grammar forms",
         "deviation-bounded exploration: 0 mutations (every seed program and every expansion of every grammar form quoted by the reference), "
+        "every form derivable from the Scenic-specific grammar rules with each optional part absent / present (2 741 forms x 8 contexts), "
         "then EVERY single token / line / truncation mutation of the selected seeds (thorough: all pairs on the smallest seeds); oracle: "
         "scenario or located ScenicSyntaxError, never another exception, a hang or dirty global state",
         "1060 seeds (all test snippets, examples, library files, documentation blocks), 573 expansions of the 85 documented forms (all must be "
